@@ -415,6 +415,44 @@ theorem destroyed_exactly_when_last_handle_goes {s s' : St} {op : Op} (hI : Inv 
   obtain ⟨h1, h2⟩ := destroyed_iff_no_handles hI' h'
   exact ⟨ob', h', hle, h2, h1⟩
 
+/-! ### the same, in the vocabulary of the Deleter
+
+`Obj.dead` counts invocations of the handle type's Deleter (`Deleter()(ptr_)`); `deleterCalls s s'`
+are the objects whose deleter was invoked by the operation leading from `s` to `s'` — what the
+harness observes per release path (destructor, reset, copy/move/converting assignment, unify, …)
+with a logging deleter, with the default deleter (as destructor run) and with `CountingPtrNoDelete`
+(as "count reached zero, object untouched"). -/
+
+/-- **the deleter runs exactly when the last handle lets go**: an operation invokes the deleter of
+    an existing object iff the object was still managed and the operation removed its last handle -/
+theorem deleter_invoked_iff_last_handle_released {s s' : St} {op : Op} (hI : Inv s)
+    (hw : op.wf s = true) (hs : step s op = .ok s') {i : Nat} {ob : Obj} (h : s.o[i]? = some ob) :
+    i ∈ deleterCalls s s' ↔ ob.dead = 0 ∧ s'.handlesTo i = 0 := by
+  obtain ⟨ob', h', hle, h1, hiff⟩ := destroyed_exactly_when_last_handle_goes hI hw hs h
+  have hlt : i < s'.o.length := by
+    rcases Nat.lt_or_ge i s'.o.length with h0 | h0
+    · exact h0
+    · rw [List.getElem?_eq_none h0] at h'; cases h'
+  have hd := (destroyed_iff_no_handles hI h).2
+  simp only [deleterCalls, List.mem_filter, List.mem_range, hlt, true_and, h, h', Option.map_some,
+    Option.getD_some, decide_eq_true_eq]
+  constructor
+  · intro hl; exact ⟨by omega, hiff.mp (by omega)⟩
+  · rintro ⟨h0, hz⟩; have := hiff.mpr hz; omega
+
+/-- **the deleter runs at most once per object, ever, and exactly once by the time no handle is
+    left**: in every reachable state each object's deleter count is 0 or 1, and it is 1 for every
+    object as soon as no handle points to it -/
+theorem deleter_runs_exactly_once {s : St} (hI : Inv s) {i : Nat} {ob : Obj} (h : s.o[i]? = some ob) :
+    ob.dead ≤ 1 ∧ (s.handlesTo i = 0 → ob.dead = 1) := by
+  obtain ⟨h1, h2⟩ := destroyed_iff_no_handles hI h
+  exact ⟨h2, h1.mpr⟩
+
+/-- non-vacuity: `reset` of the last handle is a release path with a deleter event -/
+example : ∃ s1 s2, run St.init [.make 0, .copy 1 0, .reset 0] = .ok s1 ∧ step s1 (.reset 1) = .ok s2 ∧
+    deleterCalls St.init s1 = [] ∧ deleterCalls s1 s2 = [0] := by
+  refine ⟨_, _, rfl, rfl, ?_, ?_⟩ <;> decide
+
 /-- non-vacuity: a history with self assignment, alias assignment, move from an alias,
     converting copy, unify on a shared object and destruction satisfies the hypotheses -/
 example : ∃ s', run St.init [.make 0, .assign 0 0, .copy 1 0, .assign 0 1, .massign 0 1, .copy 4 0,
